@@ -115,8 +115,8 @@ def cases(tier, seed):
             for k in range(d):
                 kind = rng.choice(['ii', 'ss', 'ss', 'ss'])
                 if kind == 'ii':
-                    rows.append(rng.choice([o for o in pos_options(M[k], False) if o[0] == 'i' and o[1] >= 0]))
-                    cols.append(rng.choice([o for o in pos_options(N[k], False) if o[0] == 'i' and o[1] >= 0]))
+                    rows.append(rng.choice([o for o in pos_options(M[k], False) if o[0] == 'i']))
+                    cols.append(rng.choice([o for o in pos_options(N[k], False) if o[0] == 'i']))
                 else:
                     rows.append(rng.choice([o for o in pos_options(M[k], thorough) if o[0] == 's']))
                     cols.append(rng.choice([o for o in pos_options(N[k], thorough) if o[0] == 's']))
